@@ -152,7 +152,8 @@ GridClauses(r, d) ==
     FaceFaceCounts    |-> Has(x, "face_faces") => FaceFaceCounts(m, x.face_faces),
     FaceFacePadding   |-> Has(x, "face_faces") => FaceFacePadding(m, x.face_faces),
     HoleEdges         |-> Has(x, "holes") /\ he => IsHoleEdgeList(m, E, x.holes),
-    AccessRaises      |-> x.raised = << >> ]
+    AccessRaises      |-> x.raised = << >>,
+    ScheduleIndependent |-> Has(r, "runs") => \A k \in 1..Len(r.runs) : r.runs[k] = x.src ]
 
 FacesClauses(r, d) ==
   [ FacesExact          |-> Range(r.faces) = ExpectedFaces(r, d) /\ IsInjective(r.faces),
